@@ -128,6 +128,10 @@ def stepC19 (_ : Unit) (ws : List String) : Unit × String :=
           if !isSyscall sc || k = 0 || nb.isEmpty || (old ≠ "none" && (parseHex old).isNone) then "bad-op"
           else "old-or-new"
         | _, _ => "bad-op"
+    | ["conc", nw, ms, sd] =>
+        match natTok nw 64, natTok ms 60000, natTok sd 4294967295 with
+        | some nw, some ms, some _ => if nw = 0 || ms = 0 then "bad-op" else "whole"
+        | _, _, _ => "bad-op"
     | _ => "bad-op"
   ((), out)
 
